@@ -11,8 +11,8 @@
 #include <sys/types.h>
 #include <unistd.h>
 
-typedef enum { C_OPEN_SRC, C_FSTAT_SRC, C_OPEN_DST, C_FSTAT_DST, C_FTRUNCATE, C_CFR, C_ALLOC, C_READ, C_WRITE, C_FDATASYNC, C_CLOSE, C_N } Call;
-static const char* call_names[C_N] = {"open-src", "fstat-src", "open-dst", "fstat-dst", "ftruncate", "cfr", "alloc", "read", "write", "fdatasync", "close"};
+typedef enum { C_OPEN_SRC, C_FSTAT_SRC, C_OPEN_DST, C_FSTAT_DST, C_FTRUNCATE, C_CFR, C_ALLOC, C_READ, C_WRITE, C_FDATASYNC, C_CLOSE_DST, C_CLOSE_SRC, C_N } Call;
+static const char* call_names[C_N] = {"open-src", "fstat-src", "open-dst", "fstat-dst", "ftruncate", "cfr", "alloc", "read", "write", "fdatasync", "close-dst", "close-src"};
 
 typedef struct { int call; long nth; int is_short; long val; } FaultSpec;
 
@@ -22,7 +22,7 @@ static long      counts[C_N];
 static int       scripting;
 static char      trace[1 << 14];
 static size_t    trace_len;
-static int       n_opens, n_fstats;
+static int       n_opens, n_fstats, dst_fd_seen = -1;
 static long      fired;
 
 static int
@@ -71,7 +71,9 @@ wrap_open_common(const char* path, int flags, mode_t mode)
   const Call c = (n_opens++ == 0) ? C_OPEN_SRC : C_OPEN_DST;
   const FaultSpec* f = issue(c);
   if (f && !f->is_short) { errno = (int)f->val; return -1; }
-  return __real_open(path, flags, mode);
+  const int fd = __real_open(path, flags, mode);
+  if (c == C_OPEN_DST) dst_fd_seen = fd;
+  return fd;
 }
 
 int __wrap_open(const char* path, int flags, ...);
@@ -187,7 +189,7 @@ int
 __wrap_close(int fd)
 {
   if (!scripting) return __real_close(fd);
-  const FaultSpec* f = issue(C_CLOSE);
+  const FaultSpec* f = issue(fd == dst_fd_seen ? C_CLOSE_DST : C_CLOSE_SRC);
   const int r = __real_close(fd);   // the descriptor is released even when close reports an error
   if (f && !f->is_short) { errno = (int)f->val; return -1; }
   return r;
@@ -327,7 +329,7 @@ main(int argc, char** argv)
       faults[n_faults++] = f;
     }
     memset(counts, 0, sizeof(counts));
-    trace_len = 0; trace[0] = 0; n_opens = n_fstats = 0;
+    trace_len = 0; trace[0] = 0; n_opens = n_fstats = 0; dst_fd_seen = -1;
     cb_released_here = cb_foreign_release = 0; cb_block = NULL;
     const int fds_before = count_fds();
     // a fifo source would block in open(): open it non-blocking from the side first
